@@ -41,7 +41,7 @@ def generate(ctx):
             continue
         if inp["built"][0] != "ok":
             continue
-        cases.append(ops[i % len(ops)](rng, inp))
+        cases.append(ao.run_op(ops[i % len(ops)], rng, inp))
     cases.extend(c06_frame.generate(ctx))
     for k, c in enumerate(cases):
         c["cid"] = k
